@@ -31,7 +31,8 @@ const rule = "case = rapid-drawn (primary engine config with a 1-4 KiB or 32 MiB
 	"(before, between or after the write phases) and optionally a stop+close / reopen+restart pair of boundaries on the same directory); " +
 	"executed in a child process with real engines and replication.Manager on both sides over loopback TCP; " +
 	"oracle = after the last write, within 60 s + 3 s x phases, Get of every pool key and a full scan of every replica engine equal those of the " +
-	"primary engine, and they are still equal 2 s later. " +
+	"primary engine, and they are still equal 2 s later (an equality that does not last 2 s, e.g. while a restarted replica replays the log from " +
+	"sequence 1, is counted and the search for a lasting one continues until the bound). " +
 	"non-trivial = the workload contains a transaction or a flush / enough data to rotate the primary's log, or a replica joins after the " +
 	"first write phase or is restarted; distinct by FNV-64 of the case JSON"
 
@@ -167,6 +168,9 @@ func record(c *Case, r *Result) {
 	}
 	if r.PrimaryWALs > 1 {
 		ev.R().Count("cases_with_rotated_primary_log", 1)
+	}
+	if r.Regressions > 0 {
+		ev.R().Count("cases_equal_then_regressed_before_settling", 1)
 	}
 	if r.Verdict == "abandon" {
 		ev.R().Count("abandoned:"+r.Sig, 1)
